@@ -103,6 +103,8 @@ pub enum Op {
     RemoveEdge(IdRef, IdRef),
     SetState(IdRef, i32),
     SetWeight(IdRef, IdRef, f32),
+    /// remove an edge and add it again with the weight it had (the graph is the same afterwards)
+    ReAddEdge(IdRef, IdRef),
     GetState(IdRef),
     GetWeight(IdRef, IdRef),
     Filter(Vec<i32>),
@@ -204,6 +206,23 @@ fn run_api(ops: &[Op]) -> CaseResult {
                         *x = *s;
                     }
                 }
+                ReAddEdge(a, b) => {
+                    // pick an existing edge when there is one (resolved against the model)
+                    let keys: Vec<(usize, usize)> = r.m.edges.keys().cloned().collect();
+                    let (o, d) = if keys.is_empty() {
+                        (r.resolve(a), r.resolve(b))
+                    } else {
+                        let k = match (a, b) {
+                            (IdRef::Live(x), IdRef::Live(y)) => (*x as usize * 7 + *y as usize) % keys.len(),
+                            _ => 0,
+                        };
+                        keys[k]
+                    };
+                    if let Some(w) = r.m.edges.get(&(o, d)).cloned() {
+                        r.g.remove_edge(o, d);
+                        r.g.add_edge(o, d, w);
+                    }
+                }
                 SetWeight(a, b, w) => {
                     let (o, d) = (r.resolve(a), r.resolve(b));
                     r.g.set_weight(&o, &d, *w);
@@ -278,6 +297,7 @@ fn op_strategy() -> BoxedStrategy<Op> {
         3 => (idref(), idref()).prop_map(|(a, b)| RemoveEdge(a, b)),
         3 => (idref(), -2i32..4).prop_map(|(a, s)| SetState(a, s)),
         3 => (idref(), idref(), w).prop_map(|(a, b, w)| SetWeight(a, b, w)),
+        3 => (idref(), idref()).prop_map(|(a, b)| ReAddEdge(a, b)),
         1 => idref().prop_map(GetState),
         1 => (idref(), idref()).prop_map(|(a, b)| GetWeight(a, b)),
         2 => prop::collection::vec(-2i32..4, 0..3).prop_map(Filter),
@@ -390,7 +410,7 @@ fn group() -> BoxedStrategy<Vec<Tok>> {
 }
 
 /// a history starts with a graph and two nodes so that most operations find their operands
-fn instr_history() -> BoxedStrategy<Vec<Vec<Tok>>> {
+pub fn instr_history() -> BoxedStrategy<Vec<Vec<Tok>>> {
     prop::collection::vec(group(), 1..40)
         .prop_map(|mut v| {
             let mut pre = vec![vec![Tok::Instr("GRAPH.ADD")]];
@@ -740,6 +760,53 @@ fn run_instr(groups: &Vec<Vec<Tok>>) -> CaseResult {
     Ok(CaseOut::new(dup_then_mut && nodes >= 2 && edges >= 1 && compared >= 5, h.0).class(format!("graphs{}", cur.graphs.len().min(5))).class(if dup_then_mut { "dup-then-mutation" } else { "no-dup-mutation" }))
 }
 
+/// Crash-only execution of an instruction history (used by C01: stacked graphs that share node
+/// ids because they descend from one another). Ok((instructions executed, a PRINT*DIFF ran on two
+/// different graphs after a DUP)), Err((instruction, panic location, message)).
+pub fn run_history_crash_only(prop: &str, groups: &Vec<Vec<Tok>>) -> Result<(usize, bool), (String, String, String)> {
+    let mut st = PushState::new();
+    let mut cur = StateSpec::snapshot(&st);
+    let mut seen_ids: BTreeSet<usize> = BTreeSet::new();
+    let mut stale: Vec<usize> = vec![];
+    let (mut steps, mut dups, mut diff_after_dup) = (0usize, 0usize, false);
+    for g in groups {
+        for t in g {
+            match t {
+                Tok::Instr(name) => {
+                    crate::supervise::journal_instr(prop, name, &cur);
+                    crate::envelope::clamp_sizes(&mut st);
+                    let differ = cur.graphs.len() >= 2 && cur.graphs[0] != cur.graphs[1];
+                    let r = guarded(|| with_machine(|m| m.step_named(&mut st, name)));
+                    if let Err((l, m)) = r {
+                        return Err((name.to_string(), l, format!("{} | state before: {}", m, cur.brief())));
+                    }
+                    steps += 1;
+                    if *name == "GRAPH.DUP" {
+                        dups += 1;
+                    }
+                    if *name == "GRAPH.PRINT*DIFF" && dups > 0 && differ {
+                        diff_after_dup = true;
+                    }
+                    let snap = StateSpec::snapshot(&st);
+                    for g in &snap.graphs {
+                        for n in &g.nodes {
+                            seen_ids.insert(n.0);
+                        }
+                    }
+                    let live_top: BTreeSet<usize> = snap.graphs.first().map(|g| g.nodes.iter().map(|n| n.0).collect()).unwrap_or_default();
+                    stale = seen_ids.iter().filter(|i| !live_top.contains(i)).cloned().collect();
+                    cur = snap;
+                }
+                other => {
+                    push_tok(&mut st, other, &cur, &stale);
+                    cur = StateSpec::snapshot(&st);
+                }
+            }
+        }
+    }
+    Ok((steps, diff_after_dup))
+}
+
 /// capacity: the GRAPH stack holds at most 100 graphs; pushes beyond are ignored
 fn capacity(ctx: &Ctx) -> SubReport {
     let mut rep = SubReport::new("graph-stack-capacity");
@@ -771,8 +838,8 @@ pub fn run(ctx: &Ctx) -> PropReport {
     );
     rep.assumptions.push("unspecified: GRAPH.EDGE*HISTORY at position 0, what *HISTORY consumes for a negative position, id order inside result vectors, the text of GRAPH.PRINT".into());
     rep.push(api_exhaustive(ctx, ctx.tier.pick(4, 5)));
-    rep.push(run_sharded(ctx, "api-random", ctx.tier.pick(20_000, 600_000), || prop::collection::vec(op_strategy(), 0..60), |ops: &Vec<Op>| run_api(ops), |ops| json!({"ops": format!("{:?}", ops)})));
-    rep.push(run_sharded(ctx, "instructions", ctx.tier.pick(20_000, 400_000), instr_history, run_instr, |g| json!({"groups": format!("{:?}", g)})));
+    rep.push(run_sharded(ctx, "api-random", ctx.tier.pick(100_000, 1_000_000), || prop::collection::vec(op_strategy(), 0..60), |ops: &Vec<Op>| run_api(ops), |ops| json!({"ops": format!("{:?}", ops)})));
+    rep.push(run_sharded(ctx, "instructions", ctx.tier.pick(60_000, 600_000), instr_history, run_instr, |g| json!({"groups": format!("{:?}", g)})));
     rep.push(capacity(ctx));
     rep
 }
